@@ -336,6 +336,23 @@ def check_C10(tier, replay=None):
     runs = [("MC_C10_" + sh, {"Shape": '"%s"' % sh, "Small": "TRUE" if tier == "quick" else "FALSE"}) for sh in shapes]
     std_flow(R, "MC_C10", runs, "Trace_C10", {}, ("D06", "D06b", "D07"), ["RegistryInvariant", "AllModules", "Emit"])
     R.extra["exhaustive"] = True
+    if tier == "thorough":
+        # extra, beyond TLC's bounds: Apalache discharges the inductive invariant of the repaired registry design
+        # (unbounded integer URIs and suffixes, any abbreviation function; registries of up to 6 entries)
+        import subprocess, tempfile
+        work = os.path.join(z.BUILD, "apalache")
+        os.makedirs(work, exist_ok=True)
+        res = {}
+        for nm, args in (("base", ["--init=Init", "--length=0"]), ("step", ["--init=IndInit", "--length=1"])):
+            try:
+                p = subprocess.run(["apalache-mc", "check", "--cinit=CInit", "--inv=IndInv", "--out-dir=" + work] + args +
+                                   [os.path.join(z.SPEC, "apalache", "RegistryInd.tla")], stdout=subprocess.PIPE, stderr=subprocess.STDOUT, timeout=900, cwd=work)
+                res[nm] = "NoError" if b"The outcome is: NoError" in p.stdout else "Error"
+            except (subprocess.TimeoutExpired, FileNotFoundError) as e:
+                res[nm] = "not run: " + type(e).__name__
+        R.extra["apalache_inductive_invariant"] = res
+        if "Error" in res.values():
+            raise z.ToolError("Apalache: the inductive invariant of spec/apalache/RegistryInd.tla does not hold: " + json.dumps(res))
     return finish(R, "model_checking",
                   "file sets over a collision vocabulary of six URIs (equal last segment, dots, dashes, URN): two files (all target-namespace pairs x root declarations under source prefixes a/b x nested declaration), chains and stars of three (both import orders), a diamond of four; each is one TLC state on which RegistryOK(final document) is checked, then generated by the real code; TLC evaluates the injectivity clauses on the modules and prefix/namespaces attributes of the emitted file",
                   ["concretiser, syn-based abstraction", "TLC", "URI vocabulary with abbreviation bases in MC_C10"])
